@@ -5,8 +5,9 @@
      o[:fam];<graph6>;...   "ok"   (oracle-only case: nothing to compare)
      c;<n>;all              "ok"   (oracle-only case)
      r[:fam];<graph6>;cls=<c>|<c>|.. picks=<k>,<k>,..
-                            the partitions after each refinement of refine_run, as
-                            <order>:<dividers> separated by " / "   (cls=- : no vertex classes)
+                            the partitions after each refinement of refine_run: projected the cells
+                            as sets "0,3|1,2" separated by " / ", strict (after " ## ")
+                            <order>:<dividers>   (cls=- : no vertex classes)
    Parsing/printing (graph6, integers) is hand-written here; everything else is extracted. *)
 open Model
 open Conv_nat
@@ -50,6 +51,10 @@ let show_part (p : (bool * nat list) list) : string =
   let _, divs = List.fold_left (fun (pos, acc) (_, c) -> let e = pos + List.length c in (e, e :: acc)) (0, []) p in
   ints order ^ ":" ^ String.concat "," (List.map string_of_int (List.rev divs))
 
+let show_cells (p : (bool * nat list) list) : string =
+  String.concat "|" (List.map (fun (_, c) ->
+      String.concat "," (List.map string_of_int (List.sort compare (List.map int_of_nat c)))) p)
+
 let nats (s : string) : nat list =
   if s = "" || s = "-" then [] else List.map (fun t -> nat_of_int (int_of_string t)) (String.split_on_char ',' s)
 
@@ -85,6 +90,9 @@ let () =
                  | None -> init_part (nat_of_int (List.length g))
                  | Some c -> init_classes c in
                let res = refine_run g p0 !picks in
+               (* projected: the cells as sets (members ascending); strict: order and dividers as they are *)
+               String.concat " / " (List.map (function Some p -> show_cells p | None -> "model-out-of-fuel") res)
+               ^ " ## " ^
                String.concat " / " (List.map (function Some p -> show_part p | None -> "model-out-of-fuel") res)
              | 'o' | 'c' -> "ok"
              | _ -> "badcase")
